@@ -4269,6 +4269,10 @@ EmitModSib:
     }
     // ==========|> [LABEL|RIP + DISP32]
     else {
+      // AMX tile loads and stores require a SIB byte, which a RIP-relative address cannot have.
+      if (ASMJIT_UNLIKELY(common_info->is_tsib_op()))
+        goto InvalidAddress;
+
       writer.emit8(encode_mod(0, op_reg, 5));
 
       if (is_32bit()) {
